@@ -7,7 +7,7 @@
 From Coq Require Import String.
 From Coq Require Import ZifyBool.
 From Comdex Require Import Lib.Base Lib.DecArith Lib.GoSem Model.Pool Gen.PureFuns Proofs.PureFunsLemmas Proofs.PureFunsC06
-  Proofs.PureFunsLemmas2 Proofs.PureFunsC06b.
+  Proofs.PureFunsLemmas2 Proofs.PureFunsC06b Proofs.PureFunsC06c.
 
 Theorem tie_amm_Deposit : forall rx ry ps x y,
   gen_amm_Deposit rx ry ps x y = Pool.deposit rx ry ps x y.
@@ -117,6 +117,110 @@ Print Assumptions tie_amm_ValidateRangedPoolParams.
 Theorem tie_amm_ValidateRangedPoolParams_recognised : gen_amm_ValidateRangedPoolParams_unrecognised = [].
 Proof. reflexivity. Qed.
 Print Assumptions tie_amm_ValidateRangedPoolParams_recognised.
+
+(* amm.NewRangedPool: a pointer-to-struct result is ONE component, option of the struct's fields
+   (tools/goextract/emit_purefuns_ptr.go); every pool the Go constructor returns is the model's *)
+Theorem tie_amm_NewRangedPool : forall rx ry ps minP maxP r,
+  gen_amm_NewRangedPool rx ry ps minP maxP = Ok r ->
+  exists p, Pool.new_ranged_pool rx ry ps minP maxP = Some p /\ r = Some (rp_fields p).
+Proof.
+  intros rx ry ps minP maxP r H. unfold gen_amm_NewRangedPool in H.
+  destruct (gen_amm_DeriveTranslation rx ry minP maxP) as [[tx ty]| |] eqn:E; cbn [obind] in H; try discriminate.
+  apply tie_amm_DeriveTranslation in E. unfold new_ranged_pool. rewrite E. cbn [ob fst snd].
+  unfold g_dadd, GoSem.lift_ovf in H.
+  destruct (dadd_c (dec_of_int rx) tx) as [xc|]; cbn [obind] in H; [|discriminate].
+  destruct (dadd_c (dec_of_int ry) ty) as [yc|]; cbn [obind] in H; [|discriminate].
+  inversion H; subst r. cbn [ob]. eexists; split; reflexivity.
+Qed.
+Print Assumptions tie_amm_NewRangedPool.
+
+(* amm.CreateRangedPool, the arithmetic core, for ALL inputs: the regenerated function is
+   Pool.create_ranged_amounts (the accepted ax, ay and the error) followed by the regenerated
+   InitialPoolCoinSupply and NewRangedPool (tied above).  No SafeMath here: both panic classes
+   collapse.  A change of the comparison `ay.GT(y)`, of a rounding or of the order of the operands
+   changes the left-hand side and the theorem stops checking. *)
+Theorem tie_amm_CreateRangedPool_core : forall x y minP maxP initP,
+  collapse (gen_amm_CreateRangedPool x y minP maxP initP) =
+  collapse (match Pool.create_ranged_amounts x y minP maxP initP with
+            | Ok (ax, ay) =>
+                obind (gen_amm_InitialPoolCoinSupply ax ay) (fun ps =>
+                obind (gen_amm_NewRangedPool ax ay ps minP maxP) (fun r => Ok (r, 0)))
+            | Err n => Ok (None, create_err_code n)
+            | Panic => Panic
+            end).
+Proof.
+  intros. unfold gen_amm_CreateRangedPool, create_ranged_amounts.
+  destruct (negb (x >? 0) && negb (y >? 0)); [reflexivity|].
+  rewrite collapse_obind, tie_amm_ValidateRangedPoolParams.
+  destruct (validate_ranged minP maxP initP) as [[]|n|] eqn:V; cbn [err_value obind]; [| |reflexivity].
+  2:{ pose proof (validate_ranged_err _ _ _ _ V) as Hn. unfold create_err_code.
+      destruct (Z.eqb_spec n 0); [lia|]. destruct (Z.eqb_spec n 9); [lia|]. reflexivity. }
+  change (negb (0 =? 0)) with false. cbv iota.
+  match goal with |- collapse (obind _ ?k) = _ => set (K := k) end.
+  destruct (initP =? minP); [reflexivity|]. destruct (initP =? maxP); [reflexivity|].
+  unfold gen_amm_inv, inv_d, sqrt_d. unfold_gosem. unfold dquo_c, dsub_c, dmul_c, dtrunc_int_c. cbv [obind ob].
+  tie_auto.
+Qed.
+Print Assumptions tie_amm_CreateRangedPool_core.
+
+(* hence: whatever the Go function returns is what the model returns (amounts within 10^100, the
+   fuel of the model's decimal length: see tie_amm_InitialPoolCoinSupply) *)
+Theorem tie_amm_CreateRangedPool : forall x y minP maxP initP r e,
+  Z.abs x < 10 ^ 100 -> Z.abs y < 10 ^ 100 ->
+  gen_amm_CreateRangedPool x y minP maxP initP = Ok (r, e) ->
+  match Pool.create_ranged_pool x y minP maxP initP with
+  | Ok p => e = 0 /\ r = Some (rp_fields p)
+  | Err n => e = create_err_code n /\ r = None
+  | Panic => False
+  end.
+Proof.
+  intros x y minP maxP initP r e Hx Hy H.
+  pose proof (tie_amm_CreateRangedPool_core x y minP maxP initP) as T. rewrite H in T. cbn [collapse] in T.
+  unfold create_ranged_pool.
+  destruct (create_ranged_amounts x y minP maxP initP) as [[ax ay]|n|] eqn:A; cbn [obind fst snd]; [| |discriminate].
+  2:{ inversion T; auto. }
+  assert (Hax : Z.abs ax < 10 ^ 100 /\ Z.abs ay < 10 ^ 100).
+  { revert A. unfold create_ranged_amounts.
+    destruct (negb (x >? 0) && negb (y >? 0)); [discriminate|].
+    destruct (validate_ranged minP maxP initP) as [[]| |]; cbn [obind]; try discriminate.
+    destruct (initP =? minP); [intros A; inversion A; subst; split; [reflexivity|assumption]|].
+    destruct (initP =? maxP); [intros A; inversion A; subst; split; [assumption|reflexivity]|].
+    assert (B : forall d v, dtrunc_int_c d = Some v -> Z.abs v < 10 ^ 100).
+    { intros d v. unfold dtrunc_int_c, chk_int, fits_int.
+      destruct (Z.ltb_spec (Z.abs (dtrunc_int d)) two256); [|discriminate].
+      intros E; inversion E; subst.
+      assert (two256 < 10 ^ 100) by (vm_compute; reflexivity). lia. }
+    cbv [ob].
+    repeat match goal with
+           | |- context [match ?o with Some _ => _ | None => _ end] =>
+               match o with context [match _ with _ => _ end] => fail 1 | _ => idtac end;
+               let E := fresh "E" in destruct o eqn:E; [|discriminate]
+           | |- context [if ?c then _ else _] => destruct c
+           end; intros A; inversion A; subst; split; eauto. }
+  destruct Hax as (Hax & Hay).
+  rewrite (tie_amm_InitialPoolCoinSupply ax ay Hax Hay) in T.
+  unfold GoSem.lift_ovf in T.
+  destruct (chk_int (initial_pool_coin_supply ax ay)) as [ps|] eqn:C; cbn [obind collapse] in T; [|discriminate].
+  unfold chk_int in C. destruct (fits_int _); [|discriminate]. inversion C; subst ps.
+  destruct (gen_amm_NewRangedPool ax ay (initial_pool_coin_supply ax ay) minP maxP) as [r'| |] eqn:N;
+    cbn [obind collapse] in T; try discriminate.
+  inversion T; subst r e.
+  apply tie_amm_NewRangedPool in N as (p & Np & ->). rewrite Np. auto.
+Qed.
+Print Assumptions tie_amm_CreateRangedPool.
+
+Theorem tie_amm_CreateRangedPool_recognised :
+  gen_amm_CreateRangedPool_unrecognised = [] /\ gen_amm_NewRangedPool_unrecognised = [].
+Proof. split; reflexivity. Qed.
+Print Assumptions tie_amm_CreateRangedPool_recognised.
+
+(* the exactly balanced offer of c06_create_ranged_balanced_ex through the regenerated function *)
+Example tie_amm_CreateRangedPool_example :
+  match gen_amm_CreateRangedPool 1000000 9998500175 (5 * 10 ^ 17) (2 * 10 ^ 18) (5001 * 10 ^ 14) with
+  | Ok (Some (rx, ry, _, _, _, _, _, _, _), e) => rx = 1000000 /\ ry = 9998500175 /\ e = 0
+  | _ => False
+  end.
+Proof. vm_compute. repeat split; reflexivity. Qed.
 
 (* methods of *RangedPool: the receiver's fields are the leading parameters, in declaration order *)
 Theorem tie_amm_RangedPool_Price : forall p,
